@@ -575,7 +575,9 @@ static ares_status_t ares_sysconfig_apply(ares_channel_t         *channel,
     channel->rotate = sysconfig->rotate;
   }
 
-  if (sysconfig->usevc) {
+  /* Flags given by the application are not the system configuration's to
+   * change */
+  if (sysconfig->usevc && !(channel->optmask & ARES_OPT_FLAGS)) {
     channel->flags |= ARES_FLAG_USEVC;
   }
 
